@@ -1,0 +1,52 @@
+//go:build verif
+
+package scheduler
+
+import "sync/atomic"
+
+// Verification hook points. These exist only under the "verif" build tag
+// and are used by the external verification harness to observe and perturb
+// the scheduler's goroutines. They never change scheduler state.
+const (
+	// VerifLoopTop fires in the Scheduler Loop before each select.
+	VerifLoopTop = iota
+	// VerifDispatched fires after a job was handed to a worker; arg is
+	// the number of jobs the loop believes are executing.
+	VerifDispatched
+	// VerifResult fires after a result was received; arg is the number
+	// of jobs the loop believes are executing.
+	VerifResult
+	// VerifEnqueueSeen fires after the loop processed an enqueued job.
+	VerifEnqueueSeen
+	// VerifWorkerGot fires in a worker after it received a job.
+	VerifWorkerGot
+	// VerifWorkerPost fires in a worker before it posts a result.
+	VerifWorkerPost
+	// VerifWorkerDying fires in the deferred path of a worker whose job
+	// killed the goroutine.
+	VerifWorkerDying
+	// VerifEnqueue fires in Enqueue before the job is sent to the loop.
+	VerifEnqueue
+	// VerifWaitClosed fires in Wait after the enqueue channel was closed.
+	VerifWaitClosed
+	// VerifLoopExit fires when the Scheduler Loop returns.
+	VerifLoopExit
+	// VerifNumPoints is the number of hook points.
+	VerifNumPoints
+)
+
+type verifHookFn func(point, arg int)
+
+var verifHook atomic.Value // verifHookFn
+
+// SetVerifHook installs f as the hook called at every verification point.
+// A nil f removes the hook.
+func SetVerifHook(f func(point, arg int)) {
+	verifHook.Store(verifHookFn(f))
+}
+
+func verifPoint(point, arg int) {
+	if f, _ := verifHook.Load().(verifHookFn); f != nil {
+		f(point, arg)
+	}
+}
